@@ -80,10 +80,13 @@ inductive GoVal where
 
 namespace GoVal
 
-/-- `values.ToLiquid`: one level only, exactly as the code does (a drop yielding a drop stays a drop) -/
+/-- `values.ToLiquid` (after `fixes/nested-drops-resolved`): a drop that yields a drop is resolved in
+    turn, until the value is no drop. The code stops after `maxDropDepth` = 64 drops in a row (a guard
+    against a drop that yields itself, which no `GoVal` is); the model follows the chain to its end, and
+    `GoVal.parse` admits no value in which the guard could be reached (`withinDropDepth`). -/
 def toLiquid : GoVal → GoVal
-  | .drop v => v
-  | .ptr (.drop v) => v      -- the method set of *T includes T's ToLiquid
+  | .drop v => toLiquid v
+  | .ptr (.drop v) => toLiquid v      -- the method set of *T includes T's ToLiquid
   | v => v
 
 /-- generic `[]any` -/
@@ -96,6 +99,53 @@ def ofStr (s : Bytes) : GoVal := .str s
 def isNil : GoVal → Bool
   | .nil => true
   | _ => false
+
+/-- `maxDropDepth` of `values/drop.go`: the number of drops in a row that `ToLiquid` resolves, and the
+    depth to which `ResolveDrops` descends into containers -/
+def maxDropDepth : Nat := 64
+
+mutual
+/-- a drop occurs somewhere in the value -/
+def hasDrop : GoVal → Bool
+  | .drop _ => true
+  | .slice _ xs | .array _ xs => hasDropList xs
+  | .map _ _ kvs | .mapSlice kvs => hasDropKVs kvs
+  | .keyedMap fs | .struct fs => hasDropFields fs
+  | .ptr v => hasDrop v
+  | _ => false
+def hasDropList : List GoVal → Bool
+  | [] => false
+  | x :: xs => hasDrop x || hasDropList xs
+def hasDropKVs : List (GoVal × GoVal) → Bool
+  | [] => false
+  | (k, v) :: r => hasDrop k || hasDrop v || hasDropKVs r
+def hasDropFields : List (Bytes × GoVal) → Bool
+  | [] => false
+  | (_, v) :: r => hasDrop v || hasDropFields r
+end
+
+mutual
+/-- nesting depth of the value (constructors on the longest path) -/
+def depth : GoVal → Nat
+  | .drop v | .ptr v => depth v + 1
+  | .slice _ xs | .array _ xs => depthList xs + 1
+  | .map _ _ kvs | .mapSlice kvs => depthKVs kvs + 1
+  | .keyedMap fs | .struct fs => depthFields fs + 1
+  | _ => 1
+def depthList : List GoVal → Nat
+  | [] => 0
+  | x :: xs => max (depth x) (depthList xs)
+def depthKVs : List (GoVal × GoVal) → Nat
+  | [] => 0
+  | (k, v) :: r => max (max (depth k) (depth v)) (depthKVs r)
+def depthFields : List (Bytes × GoVal) → Nat
+  | [] => 0
+  | (_, v) :: r => max (depth v) (depthFields r)
+end
+
+/-- the guards of `values.ToLiquid` / `values.ResolveDrops` (64 drops in a row, 64 levels of
+    containers) cannot be reached in this value: it holds no drop, or is nested less deeply -/
+def withinDropDepth (v : GoVal) : Bool := !v.hasDrop || v.depth ≤ maxDropDepth
 
 end GoVal
 
@@ -274,9 +324,10 @@ def GoVal.decFields : Nat → P (List (Bytes × GoVal))
     | _ => none
 end
 
-/-- decode one protocol field; `none` for malformed input or a value outside the model (`X…`) -/
+/-- decode one protocol field; `none` for malformed input or a value outside the model (`X…`, or drops
+    nested so deeply that the code's `maxDropDepth` guards could cut the resolution short) -/
 def GoVal.parse (s : String) : Option GoVal :=
   let cs := s.toList
   match GoVal.dec (cs.length + 1) cs with
-  | some (v, []) => some v
+  | some (v, []) => if v.withinDropDepth then some v else none
   | _ => none
